@@ -10,6 +10,7 @@ Ops ==
   CASE Kind = "shaper" ->
          { [op |-> "Shape", face |-> f, text |-> t, feat |-> 0] : f \in {"V1", "V2", "S1"}, t \in {1, 2} }
          \cup { [op |-> "Shape", face |-> "A1", text |-> 3, feat |-> x] : x \in {0, 1, 2} }
+         \cup { [op |-> "Shape", face |-> "S1", text |-> 2, feat |-> x] : x \in {3, 4, 5} }   \* one feature each: kern off, kern on, liga off
          \cup { [op |-> "SetFontCacheSize", k |-> k] : k \in {0, 1} }
          \cup { [op |-> "SetVariations", face |-> "V1", w |-> w] : w \in {400, 900} }
     [] Kind = "face" ->
